@@ -229,7 +229,11 @@ def weight_power_scale(vis, weights, auto_indices, index1, index2, out=None, div
         for j in range(vis.shape[1]):
             for k in range(len(auto_indices)):
                 autocorr = vis[i, j, auto_indices[k]].real
-                auto_scale[k] = np.reciprocal(autocorr) if divide else autocorr
+                scale = np.reciprocal(autocorr) if divide else autocorr
+                # A non-finite autocorrelation is as bad as a zero one, but its
+                # reciprocal is a perfectly finite 0, which would zero the weight
+                # instead of triggering the bad_weight substitution below.
+                auto_scale[k] = scale if np.isfinite(autocorr) else np.float32(np.nan)
             for k in range(vis.shape[2]):
                 p = auto_scale[index1[k]] * auto_scale[index2[k]]
                 # If either or both of the autocorrelations has zero power then
